@@ -786,6 +786,7 @@ class TermCanvas(Canvas):
         self.set_term_cursor(x, y)
 
     def carriage_return(self) -> None:
+        self.is_rotten_cursor = False
         self.set_term_cursor(0, self.term_cursor[1])
 
     def newline(self) -> None:
@@ -820,6 +821,7 @@ class TermCanvas(Canvas):
         elif self.modes.constrain_scrolling:
             y += self.scrollregion_start
 
+        self.is_rotten_cursor = False
         self.set_term_cursor(x, y)
 
     def push_char(self, char: bytes | None, x: int, y: int) -> None:
